@@ -325,6 +325,77 @@ class _Inliner:
                         blocked = True
         return found, blocked
 
+    # -- helpers that are one expression --------------------------------------------------------------------------------
+    def _expr_body(self, fn):
+        body = [x for x in fn.body if not (isinstance(x, ast.Expr) and isinstance(x.value, ast.Constant))]
+        if len(body) == 1 and isinstance(body[0], ast.Return) and body[0].value is not None and not fn.args.vararg and not fn.args.kwarg:
+            return body[0].value
+        return None
+
+    def _expr_replace(self, s, cands):
+        """`return <expr>` helpers called with side-effect-free arguments are substituted where they stand - also inside lambdas,
+        comprehensions and short-circuit operands, where no statement can be placed.  Returns True if something was replaced."""
+        changed = False
+        for _ in range(8):
+            hit = None
+            for e in ast.walk(s):
+                if isinstance(e, (ast.FunctionDef, ast.ClassDef)) and e is not s:
+                    continue
+                if isinstance(e, ast.Call):
+                    for name, info in cands.items():
+                        if self._call_kind(e, name, info) is not None and self._expr_body(info[3]) is not None:
+                            hit = (e, name, info)
+                            break
+                if hit:
+                    break
+            if not hit:
+                break
+            call, name, info = hit
+            key, mod, cls, fn, _ = info
+            expr = self._expr_body(fn)
+            kind = _kind(fn)
+            params = [a.arg for a in fn.args.posonlyargs + fn.args.args]
+            kwonly = [a.arg for a in fn.args.kwonlyargs]
+            defaults = dict(zip(reversed(params), reversed(fn.args.defaults)))
+            kwdefaults = {a: d for a, d in zip(kwonly, fn.args.kw_defaults) if d is not None}
+            ck, recv = self._call_kind(call, name, info)
+            bind = {}
+            pos = list(params)
+            if cls is not None and kind in ('plain', 'class'):
+                first = pos.pop(0)
+                if kind == 'plain':
+                    bind[first] = recv
+                else:
+                    r = ast.unparse(recv)
+                    bind[first] = recv if (r == 'cls' or r[:1].isupper()) else ast.Attribute(value=recv, attr='__class__', ctx=ast.Load())
+            if any(isinstance(a, ast.Starred) for a in call.args) or any(k.arg is None for k in call.keywords) or len(call.args) > len(pos):
+                return changed
+            for p_, a in zip(pos, call.args):
+                bind[p_] = a
+            bad = False
+            for k in call.keywords:
+                if (k.arg not in pos and k.arg not in kwonly) or k.arg in bind:
+                    bad = True
+                bind[k.arg] = k.value
+            for p_ in pos + kwonly:
+                if p_ not in bind:
+                    d = defaults.get(p_, kwdefaults.get(p_))
+                    if d is None:
+                        bad = True
+                    else:
+                        bind[p_] = d
+            bound_inside = {y.id for y in ast.walk(expr) if isinstance(y, ast.Name) and isinstance(y.ctx, ast.Store)} | \
+                {a.arg for y in ast.walk(expr) if isinstance(y, ast.Lambda) for a in y.args.args}
+            arg_names = {y.id for a in bind.values() for y in ast.walk(a) if isinstance(y, ast.Name)}
+            if bad or not all(_pure(a) for a in bind.values()) or (bound_inside & (arg_names | set(bind))):
+                return changed
+            new = _Subst(bind).visit(copy.deepcopy(expr))
+            new = _ConstIfExp().visit(new)
+            if not _replace_node(s, call, new):
+                return changed
+            changed = True
+        return changed
+
     def _expand(self, s, call, name, info, caller=None):
         key, mod, cls, fn, _ = info
         self.counter += 1
@@ -512,6 +583,8 @@ class _Inliner:
                     if ch:
                         h.body = new
                         changed = True
+            if self._expr_replace(s, cands):
+                changed = True
             guard = 0
             cur = [s]
             while guard < 20:
@@ -679,6 +752,8 @@ def _prune(stmts, top=True):
             if not s.body:
                 s.body = [ast.Pass()]
         out.append(s)
+        if isinstance(s, (ast.Raise, ast.Return)):
+            break              # what follows an unconditional raise/return (after a flag was decided) cannot run
     return out
 
 
@@ -709,7 +784,9 @@ def _dead_after(caller, s, name):
     if p is None:
         return False
     later = []
-    for parent, fld, i in p:
+    if isinstance(s, (ast.Return, ast.Raise)) and not any(isinstance(parent, ast.Try) for parent, _f, _i in p):
+        p = []                 # the statement leaves the function, and no handler or finally clause is in the way
+    for parent, fld, i in reversed(p):
         lst = getattr(parent, fld)
         if fld == 'handlers':
             later.extend(getattr(parent, 'finalbody', []))
@@ -720,6 +797,8 @@ def _dead_after(caller, s, name):
                 later.extend(parent.handlers + parent.orelse + parent.finalbody)
             elif fld == 'orelse':
                 later.extend(parent.finalbody)
+        elif _always_exits(lst[i + 1:]) and not any(isinstance(q, ast.Try) for q, _f, _i in p):
+            break              # the rest of this block leaves the function: nothing further out runs after s
     for st in later:
         for x in ast.walk(st):
             if isinstance(x, ast.Name) and x.id == name and isinstance(x.ctx, ast.Load):
